@@ -31,7 +31,7 @@ var commitKinds = []string{
 }
 
 var forgeKinds = []string{
-	"forge-nonvalidators", "forge-exact23", "forge-exact23-rest-genuine", "forge-otherset", "forge-oldmajority", "forge-one-vote-every-slot",
+	"forge-nonvalidators", "forge-exact23", "forge-exact23-rest-genuine", "forge-otherset", "forge-oldmajority", "forge-one-vote-every-slot", "forge-prevotes-as-commit",
 }
 
 var statusKinds = []string{"status-overclaim"}
@@ -348,6 +348,17 @@ func makePlan(c *chain, kind string, h int64) *plan {
 					c0 := *cm.Precommits[j]
 					cm.Precommits[i] = &c0
 				}
+			}
+			next.LastCommit = cm
+		case "forge-prevotes-as-commit":
+			// every validator's genuinely signed PREVOTE for the forged block (a polka that never became a
+			// commit) in the place of the precommits
+			cm := commitBy(vs, h, id, func(i int) (crypto.PrivKeyEd25519, bool) { return realKey(vs, i), true })
+			for i, pc := range cm.Precommits {
+				v := *pc
+				v.Type = types.VoteTypePrevote
+				v.Signature = realKey(vs, i).Sign(types.SignBytes(chainID, &v))
+				cm.Precommits[i] = &v
 			}
 			next.LastCommit = cm
 		case "forge-otherset":
